@@ -54,6 +54,12 @@ fn writers() -> Result<Vec<W>, String> {
     { let (h, rs) = (vh.clone(), vrecs.clone()); v.push(("bcf::io::Writer", Box::new(move |s| { let mut w = noodles_bcf::io::Writer::new(s); let mut r = vec![w.write_header(&h)]; for x in rs.iter() { r.push(w.write_variant_record(&h, x)); } r.push(w.try_finish()); (r, Box::new(w) as Box<dyn std::any::Any>) }), None)); }
     { let (h, rs) = (vh.clone(), vrecs.clone()); v.push(("vcf::io::Writer", Box::new(move |s| { let mut w = vcf::io::Writer::new(s); let mut r = vec![w.write_header(&h)]; for x in rs.iter() { r.push(w.write_variant_record(&h, x)); } (r, Box::new(w) as Box<dyn std::any::Any>) }), None)); }
     { let (h, rs) = (vh.clone(), vrecs.clone()); v.push(("vcf::io::Writer over bgzf", Box::new(move |s| { let mut w = vcf::io::Writer::new(bgzf::io::Writer::new(s)); let mut r = vec![w.write_header(&h)]; for x in rs.iter() { r.push(w.write_variant_record(&h, x)); } r.push(w.get_mut().try_finish()); (r, Box::new(w) as Box<dyn std::any::Any>) }), None)); }
+    // the generic noodles-util alignment writer, which adds its own buffering layer (F60)
+    for (name, fmt, cm) in [("util alignment writer [SAM]", noodles_util::alignment::io::Format::Sam, None), ("util alignment writer [SAM.gz]", noodles_util::alignment::io::Format::Sam, Some(noodles_util::alignment::io::CompressionMethod::Bgzf)), ("util alignment writer [BAM]", noodles_util::alignment::io::Format::Bam, Some(noodles_util::alignment::io::CompressionMethod::Bgzf)), ("util alignment writer [raw BAM]", noodles_util::alignment::io::Format::Bam, None)] {
+        let (h, rs) = (ah.clone(), arecs.clone());
+        v.push((name, Box::new(move |s| { let mut w = match noodles_util::alignment::io::writer::Builder::default().set_format(fmt).set_compression_method(cm).build_from_writer(s) { Ok(w) => w, Err(e) => return (vec![Err(e)], Box::new(()) as Box<dyn std::any::Any>) };
+            let mut r = vec![w.write_header(&h)]; for x in rs.iter() { r.push(w.write_record(&h, x)); } r.push(w.finish(&h)); (r, Box::new(w) as Box<dyn std::any::Any>) }), None));
+    }
     v.push(("fasta::io::Writer", Box::new(|s| { let mut w = noodles_fasta::io::Writer::new(s); let mut r = Vec::new(); for i in 0..8 { let rec = noodles_fasta::Record::new(noodles_fasta::record::Definition::new(format!("sq{i}"), if i % 2 == 0 { Some(bstr::BString::from("d e")) } else { None }), noodles_fasta::record::Sequence::from(b"ACGT".repeat(40 + i))); r.push(w.write_record(&rec)); } (r, Box::new(w) as Box<dyn std::any::Any>) }), None));
     v.push(("fastq::io::Writer", Box::new(|s| { let mut w = noodles_fastq::io::Writer::new(s); let mut r = Vec::new(); for i in 0..12 { let rec = noodles_fastq::Record::new(noodles_fastq::record::Definition::new(format!("r{i}"), if i % 2 == 0 { "d" } else { "" }), "ACGTACGT", "II@+IIII"); r.push(w.write_record(&rec)); } (r, Box::new(w) as Box<dyn std::any::Any>) }), None));
     v.push(("gff::io::Writer", Box::new(|s| { let mut w = noodles_gff::io::Writer::new(s); let mut r = vec![w.write_directive(&noodles_gff::DirectiveBuf::new("gff-version", Some(noodles_gff::directive_buf::Value::GffVersion(Default::default()))))]; for i in 0..10 { let rec = noodles_gff::feature::RecordBuf::builder().set_reference_sequence_name(format!("sq{i}")).set_source("src").set_type("gene").set_start(noodles_core::Position::new(1 + i).unwrap()).set_end(noodles_core::Position::new(100 + i).unwrap()).build(); r.push(w.write_record(&rec)); } (r, Box::new(w) as Box<dyn std::any::Any>) }), None));
